@@ -11,7 +11,7 @@ CLAIM = {
  "technique": "Lean 4 theorems on the gate-semantics model (fold/composition, isometry, index-bitstring bijection) + exact differential simulation against cirq and sympy"}
 
 RULE = ("random circuits over H,X,Y,Z,S,T,RX,RY,RZ,PHASE,CNOT,CX,CY,CZ,CH,CRX,CRY,CRZ,CPHASE,XX,SWAP,CSWAP with 0-3 controls anywhere, "
-        "width 1-5 (cirq) / 1-4 (sympy), 1-12 gates, exact angles (multiples of pi/4, generic, near 0/2pi/4pi, >2pi), with or without a random "
+        "every controlled gate name with 2 and 3 controls in superposition on both backends (every run); width 1-5 (cirq) / 1-4 (sympy), 1-12 gates, exact angles (multiples of pi/4, generic, near 0/2pi/4pi, >2pi), with or without a random "
         "rational initial statevector, with or without fixed width (idle qubits); non-trivial if the final state has >= 2 non-zero amplitudes; "
         "distinct by hash of (backend, gates, width, init)")
 TRUSTED = ["cirq / sympy simulators (compared against, not verified)"]
@@ -251,6 +251,19 @@ def run(ctx):
         init = rand_init(rng, w) if rng.random() < 0.3 else None
         if not one_case(ctx, "sympy", specs, w, fixed, init) and len(ctx.mismatches) + len(ctx.violations) >= 3:
             return
+    # every controlled gate name with 2 and 3 controls in superposition (so that "all controls are 1" is decided per basis state), both backends
+    for b in ("cirq", "sympy"):
+        for name in vlib.CTL + vlib.CTL_P:
+            for n_c in (2, 3):
+                qs = rng.sample(range(4), n_c + 1)
+                pre = [vlib.gspec(rng.choice(["H", "RY"]), [q]) for q in qs]
+                for g in pre:
+                    if g["n"] == "RY":
+                        g["p"] = vlib.rand_ang(rng, "generic")
+                gate = vlib.gspec(name, qs[:1], qs[1:], vlib.rand_ang(rng, "generic") if name in vlib.CTL_P else None)
+                ctx.count("multi-control-superposed:" + b)
+                if not one_case(ctx, b, pre + [gate], 4, 4, None) and len(ctx.mismatches) + len(ctx.violations) >= 3:
+                    return
     # the no-gate shortcut of Backend.simulate (initial statevector straight to frequencies), both backends
     for i in range(ctx.n(10, 100)):
         w = rng.randint(1, 3)
